@@ -270,6 +270,12 @@ Print Assumptions C17_short_lines_pass_length_scan.
    and the spacing hypothesis) - so neither the line-length scan nor the flash check of SCCReader.read can refuse it.
    C17_reread_store / C17_roundtrip_ok: hence the reader model RETURNS captions for the writer model's document, and they
    satisfy the property's re-read clause - the statement that request 1705 evaluates on every generated case *)
+(* the domain contains every list that satisfies the composed statement's hypotheses (and whose cues have a word and end
+   below 100 h); it is wider: `end <= next start` is not asked for *)
+Theorem C17_reread_domain_contains_composed : forall caps, Forall cap_dom caps -> caps_spaced 0 caps ->
+  Forall SccRereadDoc.has_word caps -> Forall SccRereadDoc.below_100h caps -> SccRereadDoc.caps_ok caps.
+Proof. exact SccRereadDoc.caps_ok_of_composed. Qed.
+Print Assumptions C17_reread_domain_contains_composed.
 Theorem C17_reader_store_on_written_document : forall caps, SccRereadDoc.caps_ok caps ->
   exists stf, reread caps = RRRead (finish_read stf)
               /\ ok_reread (map to_cue caps) (map SccRereadDoc.obs (st_caps stf)) = 0%Z
@@ -343,6 +349,16 @@ Example C17_example_reread :
   SccRereadDoc.caps_ok caps /\ SccRereadDom.caps_ok_b caps = true /\ (exists o, reread_obs caps = Some o) /\ roundtrip_ok caps = true.
 Proof.
   split; [|split; [vm_compute; reflexivity|split; [eexists; vm_compute; reflexivity|vm_compute; reflexivity]]].
+  split; [repeat constructor|split; [vm_compute; intuition discriminate|split]].
+  - repeat constructor; vm_compute; discriminate.
+  - repeat constructor.
+Qed.
+(* a cue that ends after the next one starts lies inside the domain of the re-read theorems (not inside caps_spaced) *)
+Example C17_example_reread_overlapping_end :
+  let caps := [mkWcap (lit "ab") (10000000 # 1) (12500000 # 1); mkWcap (lit "cd") (12000000 # 1) (13000000 # 1)] in
+  SccRereadDoc.caps_ok caps /\ SccRereadDom.caps_ok_b caps = true /\ roundtrip_ok caps = true.
+Proof.
+  split; [|split; vm_compute; reflexivity].
   split; [repeat constructor|split; [vm_compute; intuition discriminate|split]].
   - repeat constructor; vm_compute; discriminate.
   - repeat constructor.
